@@ -28,6 +28,7 @@ type Case struct {
 	Spare int         `json:"spare"` // spare capacity of the slices handed over
 	Muts  []script.Op `json:"muts"`  // later container mutations
 	Warm  []int       `json:"warm"`  // read-only calls (chosen by these raw integers) made before each snapshot is taken
+	Big   bool        `json:"big,omitempty"` // elements are indices into the 260-value domain (large contents, long variadics)
 }
 
 var d = script.IntDomain
@@ -40,6 +41,10 @@ func describe(s all.State[int]) string {
 
 func check(c Case) (pbt.Info, error) {
 	var info pbt.Info
+	d := d
+	if c.Big {
+		d = script.BigIntDomain
+	}
 	kind := c.Cfg.Kind
 	fam := all.Family(kind)
 	m := script.NewModel[int](c.Cfg)
@@ -286,8 +291,44 @@ func gen(kind string) func(t *rapid.T) Case {
 	}
 }
 
+// genBig: contents of dozens to hundreds of elements, variadic calls and
+// constructor lists of up to 90 values, spare capacity up to 64, more later mutations.
+func genBig(kind string) func(t *rapid.T) Case {
+	return func(t *rapid.T) Case {
+		n := len(script.BigIntDomain.Elems)
+		c := Case{Cfg: script.GenCfg(t, kind), Big: true}
+		if kind == "circularbuffer" {
+			c.Cfg.Cap = []int{9, 16, 31, 64, 100}[rapid.IntRange(0, 4).Draw(t, "bigcap")]
+		}
+		if kind == "btree" {
+			c.Cfg.Order = []int{3, 4, 7, 16, 33}[rapid.IntRange(0, 4).Draw(t, "bigorder")]
+		}
+		c.Spare = []int{0, 1, 7, 64}[rapid.IntRange(0, 3).Draw(t, "spare")]
+		fam := all.Family(kind)
+		if fam == "list" || fam == "set" {
+			c.Init = rapid.SliceOfN(rapid.IntRange(0, n-1), 0, 90).Draw(t, "init")
+		}
+		c.Ops = script.GenOpsBig(t, kind, n)
+		h := all.New[int](c.Cfg)
+		var entries []string
+		for name := range h.Variadic {
+			entries = append(entries, name)
+		}
+		slices.Sort(entries)
+		if len(entries) > 0 && rapid.IntRange(0, 4).Draw(t, "use-entry") != 0 {
+			c.Entry = entries[rapid.IntRange(0, len(entries)-1).Draw(t, "entry")]
+			c.Idx = rapid.IntRange(0, 400).Draw(t, "idx")
+			c.Vals = rapid.SliceOfN(rapid.IntRange(0, n-1), 0, 90).Draw(t, "vals")
+		}
+		c.Muts = script.GenOps(t, kind, n, 30)
+		c.Warm = rapid.SliceOfN(rapid.IntRange(0, 1<<12), 0, 8).Draw(t, "warm")
+		return c
+	}
+}
+
 func TestGenerated(t *testing.T) {
 	for _, kind := range all.Kinds {
 		pbt.Run(t, pbt.Target[Case]{Name: kind, Checks: 6000, Gen: gen(kind), Check: check})
+		pbt.Run(t, pbt.Target[Case]{Name: kind + "/big", Checks: 150, Gen: genBig(kind), Check: check})
 	}
 }
